@@ -205,6 +205,51 @@ pub fn run_c06(o: &crate::Opts) {
             let _ = std::fs::remove_file(dir.join(os));
         }
     }
+    // object files that are not regular files (a named pipe: no size to stat): the loader must
+    // treat the bytes it reads exactly as it treats a regular file with those bytes
+    if o.shard == 2 % o.nshards {
+        extern "C" {
+            fn mkfifo(path: *const std::os::raw::c_char, mode: u32) -> i32;
+        }
+        let progs: [&[u8]; 5] = [
+            &[0x30, 0x00, 0xF0, 0x25],
+            &[0x30, 0x00, 0xF0, 0x25, 0x00],
+            &[0x30, 0x00, 0xE0, 0x02, 0xF0, 0x22, 0xF0, 0x25, 0x00, 0x4F, 0x00, 0x4B, 0x00, 0x00, 0x12],
+            &[0x30],
+            &[],
+        ];
+        for (i, bytes) in progs.iter().enumerate() {
+            std::fs::write(dir.join("pipe.lc3"), bytes).unwrap();
+            let reg = spawn(&dir, &["run", "pipe.lc3", "--minimal"], &[], 10000);
+            let _ = std::fs::remove_file(dir.join("pipe.lc3"));
+            let cpath = std::ffi::CString::new(dir.join("pipe.lc3").to_str().unwrap()).unwrap();
+            let rc = unsafe { mkfifo(cpath.as_ptr(), 0o600) };
+            if rc != 0 {
+                continue;
+            }
+            let fifo = dir.join("pipe.lc3");
+            let data = bytes.to_vec();
+            let writer = std::thread::spawn(move || {
+                if let Ok(mut f) = std::fs::OpenOptions::new().write(true).open(&fifo) {
+                    let _ = f.write_all(&data);
+                }
+            });
+            let via = spawn(&dir, &["run", "pipe.lc3", "--minimal"], &[], 10000);
+            // in case lace never opened the pipe: a non-blocking reader unblocks the writer
+            let unblock = {
+                use std::os::unix::fs::OpenOptionsExt;
+                std::fs::OpenOptions::new().read(true).custom_flags(0o4000 /* O_NONBLOCK */).open(dir.join("pipe.lc3"))
+            };
+            let _ = writer.join();
+            drop(unblock);
+            let _ = std::fs::remove_file(dir.join("pipe.lc3"));
+            let same = reg.status == via.status && reg.stdout == via.stdout;
+            sink.put(
+                &format!("Z06 {} {}", hex(format!("fifo{}", i).as_bytes()), hex(bytes)),
+                &if same { "holds".to_string() } else { format!("differs: an object file read through a named pipe (status {:?}) and the same bytes in a regular file (status {:?}) are treated differently", via.status, reg.status) },
+            );
+        }
+    }
     // programs that exactly fill memory up to the implicit HALT at 0xFFFF, one word less, one more
     let mut directed: Vec<Prog> = Vec::new();
     for (i, n) in [0xCFFEusize, 0xCFFF, 0xD000].into_iter().enumerate() {
@@ -626,55 +671,75 @@ pub fn run_c07(o: &crate::Opts) {
 /// dest kinds: `absent`, `pre:<hex>`, `devfull`, `nodir`
 fn obs_c08(dir: &Path, src: &str, stack: bool, dest: &str, lim: Option<u64>) -> String {
     use std::os::unix::ffi::OsStrExt;
-    std::fs::write(dir.join("s.asm"), src).unwrap();
-    // `nu8:<kind>`: the destination's file name is not valid UTF-8 (printing it must not make the
-    // command fail after the object file has been written)
-    let (nu8, dest) = match dest.strip_prefix("nu8:") {
-        Some(d) => (true, d),
-        None => (false, dest),
+    // the case runs in a directory of its own: `work/` holds the source, the destination and
+    // whatever the command leaves behind; `work/sub/` holds symbolic links and their targets
+    let work = dir.join("work");
+    let _ = std::fs::remove_dir_all(&work);
+    std::fs::create_dir_all(work.join("sub")).unwrap();
+    std::fs::write(work.join("s.asm"), src).unwrap();
+    // prefixes of the destination kind (regular-file kinds `absent` / `pre:<hex>` only):
+    //   nu8:    the destination's file name is not valid UTF-8
+    //   long:   the destination's file name has 255 bytes (the file system's limit)
+    //   lnkrel: the destination is `sub/link.lc3`, a symbolic link with the relative target
+    //           `real.lc3` (which exists with the given contents, or is absent: a dangling link)
+    //   lnkabs: the same with an absolute target
+    let (variant, kind) = match dest.split_once(':') {
+        Some((v, k)) if ["nu8", "long", "lnkrel", "lnkabs"].contains(&v) => (v, k),
+        _ => ("", dest),
     };
-    let out_name: std::ffi::OsString = if nu8 { std::ffi::OsStr::from_bytes(b"out\xff\xfe.lc3").to_owned() } else { "out.lc3".into() };
-    let out = dir.join(&out_name);
-    let _ = std::fs::remove_file(dir.join(std::ffi::OsStr::from_bytes(b"out\xff\xfe.lc3")));
-    let _ = std::fs::remove_file(dir.join("out.lc3"));
-    let dest_path: String = if dest == "devfull" {
-        "/dev/full".into()
-    } else if dest == "nodir" {
-        "no-such-dir/out.lc3".into()
+    let pre: Option<Vec<u8>> = kind.strip_prefix("pre:").map(|h| unhex(h).unwrap_or_default());
+    // (argument given to lace, path through which the destination is read afterwards)
+    let (dest_arg, read_path): (std::ffi::OsString, PathBuf) = if kind == "devfull" {
+        ("/dev/full".into(), PathBuf::from("/dev/full"))
+    } else if kind == "nodir" {
+        ("no-such-dir/out.lc3".into(), work.join("no-such-dir/out.lc3"))
     } else {
-        if let Some(h) = dest.strip_prefix("pre:") {
-            std::fs::write(&out, unhex(h).unwrap_or_default()).unwrap();
+        match variant {
+            "nu8" => {
+                let n = std::ffi::OsStr::from_bytes(b"out\xff\xfe.lc3").to_owned();
+                (n.clone(), work.join(n))
+            }
+            "long" => {
+                let n: std::ffi::OsString = format!("{}.lc3", "n".repeat(251)).into();
+                (n.clone(), work.join(n))
+            }
+            "lnkrel" | "lnkabs" => {
+                let real = work.join("sub/real.lc3");
+                let target: PathBuf = if variant == "lnkrel" { "real.lc3".into() } else { real.clone() };
+                std::os::unix::fs::symlink(&target, work.join("sub/link.lc3")).unwrap();
+                ("sub/link.lc3".into(), work.join("sub/link.lc3"))
+            }
+            _ => ("out.lc3".into(), work.join("out.lc3")),
         }
-        "out.lc3".into()
     };
-    let dest_os: std::ffi::OsString = if nu8 && dest_path == "out.lc3" { out_name.clone() } else { dest_path.clone().into() };
-    let mut a: Vec<&std::ffi::OsStr> = vec!["compile".as_ref(), "s.asm".as_ref(), dest_os.as_os_str()];
+    if let Some(b) = &pre {
+        // through the link, if any: the link's target gets the contents
+        let p = if variant.starts_with("lnk") { work.join("sub/real.lc3") } else { read_path.clone() };
+        std::fs::write(p, b).unwrap();
+    }
+    let mut a: Vec<&std::ffi::OsStr> = vec!["compile".as_ref(), "s.asm".as_ref(), dest_arg.as_os_str()];
     if stack {
         a.push("-f".as_ref());
         a.push("stack".as_ref());
     }
-    let k = spawn_limited(dir, &a, &[], 20000, lim);
-    // anything left behind next to the destination (temporary files)
-    let extra = std::fs::read_dir(dir)
-        .map(|rd| {
-            rd.filter_map(|e| e.ok())
-                .filter(|e| {
-                    let n = e.file_name();
-                    n != "s.asm" && n != "out.lc3" && n != out_name
-                })
-                .count()
-        })
-        .unwrap_or(0);
-    let after = if dest == "devfull" {
+    let k = spawn_limited(&work, &a, &[], 20000, lim);
+    // anything left behind (temporary files; files written to the wrong place)
+    let expected: Vec<std::ffi::OsString> = vec!["s.asm".into(), "sub".into(), read_path.file_name().map(|n| n.to_owned()).unwrap_or_default()];
+    let count = |d: &Path, ok: &[std::ffi::OsString]| -> usize {
+        std::fs::read_dir(d).map(|rd| rd.filter_map(|e| e.ok()).filter(|e| !ok.contains(&e.file_name())).count()).unwrap_or(0)
+    };
+    let extra = count(&work, &expected) + count(&work.join("sub"), &["link.lc3".into(), "real.lc3".into()]);
+    let after = if kind == "devfull" {
         "devfull".to_string()
-    } else if dest == "nodir" {
-        if dir.join("no-such-dir").exists() { "created".into() } else { "nodir".to_string() }
+    } else if kind == "nodir" {
+        if work.join("no-such-dir").exists() { "created".into() } else { "nodir".to_string() }
     } else {
-        match std::fs::read(&out) {
+        match std::fs::read(&read_path) {
             Ok(b) => format!("file:{}", hex(&b)),
             Err(_) => "absent".to_string(),
         }
     };
+    let _ = std::fs::remove_dir_all(&work);
     format!("st={} dest={} extra={}", st(&k), after, extra)
 }
 
@@ -715,7 +780,10 @@ pub fn run_c08(o: &crate::Opts) {
     // small program (object file: 6 bytes), destination absent / shorter / longer than the object file
     if o.shard == 0 {
         let src = "add r0 r0 #1\nhalt\n";
-        for dest in ["absent", "pre:0102", "pre:a1a2a3a4a5a6a7a8a9aaabacadaeaf", "nu8:absent", "nu8:pre:0102"] {
+        for dest in [
+            "absent", "pre:0102", "pre:a1a2a3a4a5a6a7a8a9aaabacadaeaf", "nu8:absent", "nu8:pre:0102", "long:absent", "long:pre:0102",
+            "lnkrel:absent", "lnkrel:pre:0102", "lnkabs:absent", "lnkabs:pre:a1a2a3a4a5a6a7a8a9aaabacadaeaf",
+        ] {
             for k in 0..=8u64 {
                 let obs = obs_c08(&dir, src, false, dest, Some(k));
                 *kinds.entry(format!("limit-sweep:{}", obs.split(' ').next().unwrap())).or_default() += 1;
@@ -770,8 +838,14 @@ pub fn run_c08(o: &crate::Opts) {
             _ => "nodir".to_string(),
         };
         let stack = (force_stack && i % 5 != 4) || rng.chance(1, 3);
-        // one destination in eight (regular-file kinds) has a name that is not valid UTF-8
-        let dest = if (dest == "absent" || dest.starts_with("pre:")) && rng.chance(1, 4) { format!("nu8:{}", dest) } else { dest };
+        // one regular-file destination in three is special: a name that is not valid UTF-8, a name
+        // of 255 bytes, a symbolic link (live or dangling, relative or absolute target) in a
+        // sub-directory
+        let dest = if (dest == "absent" || dest.starts_with("pre:")) && rng.chance(1, 3) {
+            format!("{}:{}", rng.pick(&["nu8", "long", "lnkrel", "lnkabs"]), dest)
+        } else {
+            dest
+        };
         let obs = obs_c08(&dir, &src, stack, &dest, lim);
         *kinds.entry(format!("{}{}:{}", dest.split(':').next().unwrap(), if lim.is_some() { "+limit" } else { "" }, obs.split(' ').next().unwrap())).or_default() += 1;
         if samples.len() < 3 && rng.chance(1, 8) {
